@@ -164,7 +164,13 @@ def run_case(case):
                     fh.write(b'junk')
                 report.append(('unknown file', rel))
             elif kind == 'emptydir':
-                rel = os.path.join('ee', 'd%d' % d['arg']) if d['where'] != 'top' else 'emptytop%d' % d['arg']
+                if d['where'] == 'top':
+                    rel = 'emptytop%d' % d['arg']
+                elif d['where'] == 'nested':
+                    rel = os.path.join('ee', 'd%d' % d['arg'])
+                else:
+                    # a chain of empty directories deeper than the two levels value files use
+                    rel = os.path.join('ee', 'd%d' % d['arg'], 'f', 'g%d' % (d['arg'] % 3))
                 full = os.path.join(root, rel)
                 if os.path.exists(full):
                     continue
